@@ -17,13 +17,22 @@ type (
 		expiry time.Time
 	}
 
+	// registeredPriceTable is a registered price table and the time it stops
+	// being valid.
+	registeredPriceTable struct {
+		pt     rhp3.HostPriceTable
+		expiry time.Time
+	}
+
 	// A priceTableManager handles registered price tables and their expiration.
 	priceTableManager struct {
 		mu sync.RWMutex // protects the fields below
 
 		// expirationList is a doubly linked list of price table UIDs. The list
-		// will naturally be sorted by expiration time since validity is
-		// constant and new price tables are appended to the list.
+		// is sorted by expiration time as long as the validity is constant
+		// since new price tables are appended to the list. The validity is a
+		// host setting and may change; Get therefore checks the expiration
+		// itself and the list is only used to free memory.
 		expirationList *list.List
 		// expirationTimer is a timer that fires when the next price table
 		// expires. It is created using time.AfterFunc. It is set by the first
@@ -31,7 +40,7 @@ type (
 		expirationTimer *time.Timer
 		// priceTables is a map of valid price tables. The key is the UID of the
 		// price table. Keys are removed by the loop in pruneExpired.
-		priceTables map[rhp3.SettingsID]rhp3.HostPriceTable
+		priceTables map[rhp3.SettingsID]registeredPriceTable
 	}
 )
 
@@ -71,12 +80,12 @@ func (pm *priceTableManager) pruneExpired() {
 // has not expired.
 func (pm *priceTableManager) Get(id [16]byte) (rhp3.HostPriceTable, error) {
 	pm.mu.RLock()
-	pt, ok := pm.priceTables[id]
+	rpt, ok := pm.priceTables[id]
 	pm.mu.RUnlock()
-	if !ok {
+	if !ok || !time.Now().Before(rpt.expiry) {
 		return rhp3.HostPriceTable{}, ErrNoPriceTable
 	}
-	return pt, nil
+	return rpt.pt, nil
 }
 
 // Register adds a price table to the list of valid price tables.
@@ -85,7 +94,7 @@ func (pm *priceTableManager) Register(pt rhp3.HostPriceTable) {
 	defer pm.mu.Unlock()
 
 	expiration := time.Now().Add(pt.Validity)
-	pm.priceTables[pt.UID] = pt
+	pm.priceTables[pt.UID] = registeredPriceTable{pt: pt, expiry: expiration}
 	pm.expirationList.PushBack(expiringPriceTable{
 		uid:    pt.UID,
 		expiry: expiration,
@@ -118,7 +127,7 @@ func (sh *SessionHandler) readPriceTable(s *rhp3.Stream) (rhp3.HostPriceTable, e
 func newPriceTableManager() *priceTableManager {
 	pm := &priceTableManager{
 		expirationList: list.New(),
-		priceTables:    make(map[rhp3.SettingsID]rhp3.HostPriceTable),
+		priceTables:    make(map[rhp3.SettingsID]registeredPriceTable),
 	}
 	return pm
 }
